@@ -383,3 +383,31 @@ def last_access_rule(rep, u, states):
             (rep.proved if not later else rep.violated)("R-STATE", fp, "stop-is-last-access#%d" % n, "tp_thread_proc: nothing is accessed through the thread object after STOP is stored",
                                                         "" if not later else "the object is used again at line %s after STOP: a waiter that saw STOP may already have freed the pool" % later[0].get("ln"), x.get("ln"))
     return n
+
+
+def detach_wake_rule(rep, u, states, fname="tp_thread_dettach"):
+    """a thread told to leave by ANOTHER thread must be woken: an idle worker sleeps in epoll_wait(-1) and never looks at the
+    state word (tp_shutdown skips it as 'not running', tp_shutdown_wait then joins it forever).  The bare store of STOPING
+    is reached only when the caller is the thread itself or after a message send to it was tried."""
+    fn = tp.need(u, fname)
+    rep.functions.add(fname)
+    stores = [(pos, x) for pos, root, x, ps in fn.nodes() if x.get("k") == "bin" and x["op"] == "=" and core.strip_casts(x["x"]).get("k") == "mem" and
+              core.strip_casts(x["x"])["f"] == "state" and const_val(x["y"]) == states["STOPING"]]
+    if not stores:
+        raise driver.AnalysisBroken("%s: store of the STOPING state not found" % fname)
+    n = 0
+    for pos, x in stores:
+        n += 1
+        selftest = False
+        for bid in fn.reachable_blocks():
+            c = fn.blocks[bid].cond
+            if c is None or not fn.dominates(bid, pos[0]) or bid == pos[0]:
+                continue
+            if any(y.get("k") == "call" and y.get("fn") in ("tpt_get_current", "pthread_self", "pthread_equal") for y, _ in walk(c)):
+                selftest = True
+        sent = any(fn.pos_dominates(p2, pos) or (p2[0] != pos[0] and pos[0] in fn.reach_from([p2[0]])) for p2, _r, c2, _ps in fn.calls({"tpt_msg_send"}))
+        ok = selftest and sent
+        desc = "%s: the STOPING store at line %s is for the calling thread itself, or follows an attempt to wake the target with a message" % (fname, x.get("ln"))
+        (rep.proved if ok else rep.violated)("R-WAKE", fn, "detach-wakes-target", desc, "" if ok else
+                                             "the state is stored and nothing wakes the worker: tp_thread_dettach(idle worker) from the main thread, then tp_destroy() never returns", x.get("ln"))
+    return n
